@@ -11,10 +11,12 @@ import (
 
 func gen(tier string) []proto.Item {
 	var items []proto.Item
-	delays := []int{3000, 40000, 310000} // the last one is later than the 300ms timeout: it overtakes the next probe in the serial engine
+	// -1 = no latency at all (the reply is on the capture handle when the send call returns); the last one is later than the
+	// 300ms timeout: it overtakes the next probe in the serial engine
+	delays := []int{-1, 3000, 40000, 310000}
 	cfgs := [][2]int{{300, 10}}
 	if tier == "thorough" {
-		delays = []int{3000, 17000, 40000, 95000, 260000, 310000}
+		delays = []int{-1, 3000, 17000, 40000, 95000, 260000, 310000}
 		cfgs = [][2]int{{300, 10}, {3000, 50}}
 	}
 	for _, v := range proto.Variants {
